@@ -47,6 +47,16 @@ class ConfigOption(Generic[T]):
         self.value = self.valueType()(string)
 
 class BooleanOption(ConfigOption[bool]):
+    def setFromString(self, string: str):
+        # bool('no') is True: interpret the words used in configuration files
+        word = string.strip().lower()
+        if word in ('yes', 'true', 'on', '1'):
+            self.value = True
+        elif word in ('no', 'false', 'off', '0'):
+            self.value = False
+        else:
+            raise ValueError('Not a boolean: %s' % string)
+
     def registerArgparse(self, group: ArgumentGroup):
         enables = [x for x in self.options if x[0] != "!"]
         disables = [x[1:] for x in self.options if x[0] == "!"]
